@@ -39,6 +39,10 @@ func Substr[T ~string](str T, offset, length int) T {
 			return Null[T]()
 		}
 		end = newLength
+	} else if length > len(str)-offset {
+		// Everything up to the end: offset+length is not computed, it overflows
+		// for a very large length ("the rest of the string").
+		end = len(str)
 	} else {
 		end = offset + length
 	}
